@@ -31,7 +31,6 @@ inductive Arg where
 inductive Exc where
   | valueError
   | timeoutStateError
-  | typeError
   | readTimeoutError
   | badHandle            -- driver only: no such object
   deriving DecidableEq, Repr, Inhabited
@@ -96,12 +95,8 @@ def resolveDefault (gdt : TV) : TV → TV
 /-- `Timeout.connect_timeout` -/
 def connectTimeout (t : Timeout) : Except Exc TV :=
   match t.total with
-  | .none => .ok t.connect                                   -- `if self.total is None`
-  | .unset =>
-    match t.connect with
-    | .none => .ok t.total
-    | .unset => .ok t.total
-    | .val _ => .error .typeError                            -- `min(number, _TYPE_DEFAULT.token)`
+  | .none => .ok t.connect                                   -- `if self.total is None
+  | .unset => .ok t.connect                                  --   or self.total is _DEFAULT_TIMEOUT`
   | .val T =>
     match t.connect with
     | .none => .ok t.total                                   -- `self._connect is None or … is _DEFAULT_TIMEOUT`
